@@ -190,8 +190,14 @@ class Peer:
         uid = data
         kind = step.get('kind', 'ok')
         delay = step.get('delay', 0)
+        def upd_line(upd):
+            if upd == 'err':
+                # the polled parameter is in an error state
+                self.sim.count('peer.error-update')
+                return b'error_update m:value ["HardwareError", "sensor broken", {"t": 2.0}]\n'
+            return f'update m:value [{upd}, {{"t": 2.0}}]\n'.encode()
         for upd in step.get('updates_before', ()):
-            self.schedule(conn, max(0, delay - 0.0001), f'update m:value [{upd}, {{"t": 2.0}}]\n'.encode())
+            self.schedule(conn, max(0, delay - 0.0001), upd_line(upd))
         rspec = f' {spec}' if spec else ' '
         if kind == 'none':
             pass
@@ -219,7 +225,7 @@ class Peer:
         for f in step.get('faults', ()):
             self.schedule(conn, f.get('delay', 0), tuple(f['fault']))
         for upd in step.get('updates_after', ()):
-            self.schedule(conn, delay, f'update m:value [{upd}, {{"t": 2.0}}]\n'.encode())
+            self.schedule(conn, delay, upd_line(upd))
 
     @staticmethod
     def _ok_reply(action, spec, uid):
